@@ -13,7 +13,7 @@ from ..specs import BASE, Model, iso, day
 ID = 'C14'
 RULE = ('Generated well-formed WBS specs incl. unschedulable ones: hierarchical dependency cycles (a task waiting for a task '
         'that waits for one of its ancestors; 1/3 of the stream), resources whose calendar is empty / zero / ended before '
-        'the project start (forward) / starting after the deadline (backward), external predecessors with and without '
+        'the project start (forward) / starting after the deadline (backward) / offering only a few dated days (less than a task needs), external predecessors with and without '
         'dates, leaves with a fixed end after the clock (forward), tasks named None, empty WBS, zero-work and milestone '
         'tasks on dead resources; both schedulers.  Oracle: outcome is a Schedule or a RuntimeError that is not a '
         'RecursionError; any other exception type is a violation; for the four unschedulable classes of the statement a '
@@ -166,6 +166,9 @@ def expected_unschedulable(case):
         cs = case['res'].get(str(t['resource']))
         if cs is not None and _dead(cs, fwd) and sched.workf(t, case['dflt']) > 0:
             out.append('resource-never-available')
+            break
+        if cs is not None and cs[0] == 'direct' and cs[1] and sched.workf(t, case['dflt']) > sum(cs[1].values()) + 1e-9:
+            out.append('resource-capacity-exhausted')        # all capacity the calendar will ever offer < work of one task
             break
     return out
 
